@@ -1107,6 +1107,108 @@ def run_hypertune(ctx, specs):
 
 
 # --------------------------------------------------------------------------
+# (c3) independent GPs per rung level (IndependentGPPerResourceModel): batches of encoded inputs whose
+#      resource column is mixed and ungrouped
+# --------------------------------------------------------------------------
+def gen_indep_spec(rng, k=None):
+    nb = rng.randint(3, 7)
+    res = [rng.choice([1, 3, 9]) for _ in range(nb)]
+    if k is not None and k % 3 == 0:   # a permutation that is not its own inverse, e.g. 9 1 3 1 9
+        res = ([9, 1, 3] + [rng.choice([1, 3, 9]) for _ in range(nb - 3)])
+    return dict(seed=rng.randrange(10 ** 6), counts=[rng.randint(4, 8), rng.randint(3, 6), rng.randint(2, 5)],
+                head=rng.choice(["ei", "lcb"]), kappa=rng.uniform(0.3, 3.0), jitter=rng.choice([0.01, 0.1]),
+                inv_bw=[rng.uniform(1.0, 6.0), rng.uniform(1.0, 6.0)], noise=10 ** rng.uniform(-3, -1),
+                batch=[[rng.uniform(0.05, 0.95), rng.uniform(0.05, 0.95), r] for r in res])
+
+
+def run_indep(ctx, specs):
+    from scipy.special import ndtr
+    from scipy.stats import norm
+    import syne_tune.optimizer.schedulers.searchers.bayesopt.models.meanstd_acqfunc_impl as M
+    from syne_tune.config_space import uniform
+    from syne_tune.optimizer.schedulers.searchers.utils.hp_ranges_factory import make_hyperparameter_ranges
+    from syne_tune.optimizer.schedulers.searchers.bayesopt.datatypes.config_ext import ExtendedConfiguration
+    from syne_tune.optimizer.schedulers.searchers.bayesopt.datatypes.common import INTERNAL_METRIC_NAME
+    from syne_tune.optimizer.schedulers.searchers.bayesopt.utils.test_objects import create_tuning_job_state
+    from syne_tune.optimizer.schedulers.searchers.bayesopt.gpautograd.kernel import Matern52
+    from syne_tune.optimizer.schedulers.searchers.bayesopt.gpautograd.mean import ScalarMeanFunction
+    from syne_tune.optimizer.schedulers.searchers.bayesopt.gpautograd.independent.gpind_model import IndependentGPPerResourceModel
+    from syne_tune.optimizer.schedulers.searchers.bayesopt.models.gp_model import GaussProcEmpiricalBayesEstimator
+    levels, rrange = [1, 3, 9], (1, 9)
+    for spec in specs:
+        case = dict(kind="indep", spec=spec)
+        rs = np.random.RandomState(spec["seed"])
+        with warnings.catch_warnings():
+            warnings.simplefilter("ignore")
+            hp = make_hyperparameter_ranges({"x": uniform(0.0, 1.0), "y": uniform(0.0, 1.0)})
+            cext = ExtendedConfiguration(hp, resource_attr_key="epoch", resource_attr_range=rrange)
+            configs, metrics = [], []
+            for r, num in zip(levels, spec["counts"]):
+                for _ in range(num):
+                    a, b = rs.uniform(size=2)
+                    configs.append(cext.get({"x": float(a), "y": float(b)}, r))
+                    metrics.append({INTERNAL_METRIC_NAME: float(np.sin(3.0 * a) + (b - 0.3) ** 2 + 0.2 / r + 0.05 * rs.normal())})
+            state = create_tuning_job_state(hp_ranges=cext.hp_ranges_ext, cand_tuples=configs, metrics=metrics)
+            gm = IndependentGPPerResourceModel(kernel=Matern52(dimension=2, ARD=True, has_covariance_scale=False),
+                                               mean_factory=lambda resource: ScalarMeanFunction(),
+                                               resource_attr_range=rrange, random_seed=0)
+            gm.create_likelihood(levels)
+            params = gm.get_params()
+            params.update({"kernel_inv_bw0": spec["inv_bw"][0], "kernel_inv_bw1": spec["inv_bw"][1], "noise_variance": spec["noise"]})
+            gm.set_params(params)
+            est = GaussProcEmpiricalBayesEstimator(gpmodel=gm, num_fantasy_samples=1, active_metric=INTERNAL_METRIC_NAME)
+            pred = est.fit_from_state(state, update_params=False)
+            X = cext.hp_ranges_ext.to_ndarray_matrix([cext.get({"x": a, "y": b}, int(r)) for a, b, r in spec["batch"]])
+            head = spec["head"]
+            acq = (M.EIAcquisitionFunction(pred, jitter=spec["jitter"]) if head == "ei"
+                   else M.LCBAcquisitionFunction(pred, kappa=spec["kappa"]))
+            res = [int(r) for _, _, r in spec["batch"]]
+            ctx.count(("indep", spec), nontrivial=len(set(res)) >= 2)
+            ctx.h("indep_batch_resources", "mixed, ungrouped" if res != sorted(res) and len(set(res)) >= 2 else
+                  "mixed, grouped" if len(set(res)) >= 2 else "single level")
+            sig = dict(function="compute_acq", head=head, predictor="independent GPs per resource")
+            try:
+                vb = np.asarray(acq.compute_acq(X.copy()), dtype=float).reshape(-1)
+                rows = []
+                for i in range(X.shape[0]):
+                    v1 = float(np.asarray(acq.compute_acq(X[i].copy())).reshape(-1)[0])
+                    v2, g = acq.compute_acq_with_gradient(X[i].copy())
+                    pr = pred.predict(X[i].reshape(1, -1))[0]
+                    rows.append((v1, float(v2), np.asarray(g, dtype=float).reshape(-1),
+                                 float(np.asarray(pr["mean"]).reshape(-1)[0]), float(np.asarray(pr["std"]).reshape(-1)[0])))
+                best = float(np.asarray(pred.current_best()[0]).reshape(-1)[0])
+            except Exception as exc:
+                ctx.violation("property", "%s on independent GPs per resource raised %s: %s" % (head, type(exc).__name__, str(exc)[:200]),
+                              case=case, signature=dict(sig, defect="exception", exception=type(exc).__name__))
+                continue
+            for i, (v1, v2, g, m, sd) in enumerate(rows):
+                if head == "ei":
+                    u = (best - m - spec["jitter"]) / max(sd, STD_MIN)
+                    closed = -max(sd, STD_MIN) * (u * ndtr(u) + norm.pdf(u))
+                else:
+                    closed = m - sd * spec["kappa"]
+                sc = max(abs(closed), 1e-300)
+                for what, val in (("compute_acq on the single input", v1), ("compute_acq_with_gradient value", v2),
+                                  ("closed form from predict() of that input", closed)):
+                    if not abs(vb[i] - val) <= 1e-8 * max(sc, abs(val)) + 1e-300:
+                        ctx.violation("property", "%s, batch of %d inputs at rung levels %s: compute_acq(X)[%d] = %r but %s = %r" % (
+                            head, len(res), res, i, float(vb[i]), what, float(val)), case=case,
+                            signature=dict(sig, defect="batch_row_mismatch", against=what.split(" ")[0]))
+                        break
+                # gradient w.r.t. the configuration coordinates (the resource column is fixed) vs central differences
+                for j in range(2):
+                    def f(t):
+                        xx = X[i].copy()
+                        xx[j] = t
+                        return float(np.asarray(acq.compute_acq(xx)).reshape(-1)[0])
+                    fd, fd2 = richardson(f, float(X[i, j]), 1e-4), richardson(f, float(X[i, j]), 2e-4)
+                    if not abs(fd - g[j]) <= 1e-5 * max(1.0, abs(g[j]), abs(fd), abs(v1)) + 20.0 * abs(fd - fd2):
+                        ctx.violation("property", "%s on independent GPs per resource (rung level %d): d acq / d x[%d] = %r but central "
+                                      "differences give %r" % (head, res[i], j, float(g[j]), fd), case=case,
+                                      signature=dict(sig, defect="input_gradient"))
+
+
+# --------------------------------------------------------------------------
 # (a2) explicit predictor argument with locally linear stub predictors (exact Jacobians)
 # --------------------------------------------------------------------------
 def make_linear_stub_class():
@@ -1218,7 +1320,7 @@ def gen_fit_spec(rng, k=None):
     spec = dict(seed=rng.randrange(10 ** 6), d=rng.choice([1, 2, 3]), n=rng.randint(2, 7), ard=rng.random() < 0.5,
                 mean=rng.choice(["scalar", "zero"]), transform=rng.choice(["none", "none", "boxcox"]),
                 warp=rng.random() < 0.25, lam=None, bound=None,
-                encoding=rng.choice(["logarithm", "positive"]))
+                encoding=rng.choice(["logarithm", "positive"]), verbose=rng.random() < 0.4)
     nb = len(BOXCOX_BRANCH_POINTS)
     if k is not None and k < nb:   # every run visits every branch point once
         spec["transform"], spec["lam"] = "boxcox", BOXCOX_BRANCH_POINTS[k]
@@ -1261,7 +1363,11 @@ def run_fit_objective(ctx, specs):
             lik.reset_params(np.random.RandomState(spec["seed"] % 1000))
             data = {"features": X, "targets": y}
             lik.on_fit_start(data)
-            obj, param_dict = create_lbfgs_arguments(criterion=lik, crit_args=[data])
+            verbose = bool(spec.get("verbose", False))   # logging switch of OptimizationConfig: must not affect results
+            import logging
+            logging.getLogger("syne_tune.optimizer.schedulers.searchers.bayesopt.gpautograd.optimization_utils").setLevel(logging.WARNING)
+            obj, param_dict = create_lbfgs_arguments(criterion=lik, crit_args=[data], verbose=verbose)
+            ctx.h("fit_verbose", verbose)
             conv = ParamVecDictConverter(param_dict)
             v0 = np.array(conv.to_vec(), dtype=float)
             bounds = lik.box_constraints_internal()
@@ -1327,8 +1433,16 @@ def run_fit_objective(ctx, specs):
             if not abs(val(v) - f0) <= 1e-10 * max(1.0, abs(f0)):
                 ctx.violation("property", "fitting objective: two evaluations at the same point differ", case=case,
                               signature=dict(sig, defect="value_mismatch"))
+            # the logging switch does not change what the objective returns
+            f_o, g_o = create_lbfgs_arguments(criterion=lik, crit_args=[data], verbose=not verbose)[0](v.copy())
+            f_o, g_o = float(np.asarray(f_o).reshape(-1)[0]), np.asarray(g_o, dtype=float).reshape(-1)
+            if not (abs(f_o - f0) <= 1e-10 * max(1.0, abs(f0)) and np.allclose(g_o, g, rtol=1e-9, atol=1e-10 * max(1.0, abs(f0)))):
+                ctx.violation("property", "fitting objective with verbose=%r returns value %r / gradient %r but with verbose=%r "
+                              "value %r / gradient %r at the same parameters" % (
+                                  verbose, f0, g.tolist()[:5], not verbose, f_o, g_o.tolist()[:5]), case=case,
+                              signature=dict(sig, defect="depends_on_verbose"))
             check_objective_call_sequences(
-                ctx, lambda: create_lbfgs_arguments(criterion=lik, crit_args=[data])[0], v,
+                ctx, lambda: create_lbfgs_arguments(criterion=lik, crit_args=[data], verbose=verbose)[0], v,
                 np.random.RandomState(spec["seed"] + 5), case)
             for i in range(v.size):
                 def f(t):
@@ -1423,7 +1537,8 @@ def run(ctx, replay=None):
                 "differences (step 1e-4, wider than the branch); both parameter encodings (logarithm, positive/softrelu) with "
                 "parameters exactly ON their bounds, checked with one-sided differences pointing into the box; call sequences "
                 "of the objective on one buffer mutated in place / repeated / alternating buffers vs fresh evaluations; "
-                "(c2) EI and LCB on HyperTune independent-GP surrogates with ensemble distributions on 1, 2, 3 rung levels. "
+                "both settings of the verbose switch; (c3) EI / LCB on independent GPs per rung level with batches of 3..7 inputs at "
+                "mixed, ungrouped rung levels, batch rows vs single-input calls vs closed form; (c2) EI and LCB on HyperTune independent-GP surrogates with ensemble distributions on 1, 2, 3 rung levels. "
                 "Non-trivial = a head case with more than "
                 "one fantasy column or a second output model; a Cholesky case with n >= 2; a GP case with pending "
                 "candidates and nf > 1; a fitting case with n >= 3; distinct by content hash")
@@ -1447,6 +1562,8 @@ def run(ctx, replay=None):
             run_gp_jitter(ctx, [replay["spec"]])
         elif kind == "hypertune":
             run_hypertune(ctx, [replay["spec"]])
+        elif kind == "indep":
+            run_indep(ctx, [replay["spec"]])
         return
     n_head = ctx.n(250, 2500)
     specs = [gen_head_spec(rng, head) for head in ("ei", "lcb", "eipu", "cei") for _ in range(n_head)]
@@ -1458,5 +1575,6 @@ def run(ctx, replay=None):
     run_gp_acq(ctx, [gen_gp_spec(rng) for _ in range(ctx.n(120, 1200))] +
                [gen_gp_tail_spec(rng) for _ in range(ctx.n(40, 400))])
     run_hypertune(ctx, [gen_hypertune_spec(rng, k) for k in range(ctx.n(60, 900))])
+    run_indep(ctx, [gen_indep_spec(rng, k) for k in range(ctx.n(30, 500))])
     run_linear_explicit(ctx, [gen_linear_spec(rng) for _ in range(ctx.n(150, 2000))])
     run_fit_objective(ctx, [gen_fit_spec(rng, k) for k in range(ctx.n(80, 600))])
